@@ -11,6 +11,7 @@ mod c12;
 mod c13;
 mod crash;
 mod e1;
+mod e2;
 mod c14;
 mod c15;
 mod c16;
@@ -47,6 +48,10 @@ fn main() {
         "c18" => c18::run(&args),
         "c19" => c19::run(&args),
         "e1" => e1::run(&args),
+        "e2" => e2::run(&args),
+        "e2child" => e2::run_child(&args),
+        "e2recover" => e2::run_recover(&args),
+        "e2recoverchild" => e2::run_recover_child(&args),
         "c14ref" => c14::run_ref(&args),
         other => {
             eprintln!("unknown check {other}");
